@@ -91,6 +91,23 @@ CLAIMED = {
     text="All field values, all 16 modulation codes x NOPE enumerated (each case loop-free, complete), arbitrary input octet strings up to 2048, all valid v0/v1 codec messages incl. legacy padding; batched v2 sub-PDUs proved prefix-decodable (any count via codec.Sequence's law).",
     note="Trusted: PyVC builtin models (int.from_bytes/to_bytes, bytes.join, slicing); PDU constructors' results taken from the live objects; Sequence repetition law is C16's.",
     design="9/C17"),
+ "C04": dict(
+    engine="pyvc+cvc",
+    technique="contract-based deductive verification: Python gen_msg/parse_msg (PyVC) and trxcon's trx_data_rx_cb / trx_if_handle_phyif_burst_req (CVC, functions cut verbatim from trx_if.c behind a prelude) proved against the SAME layout oracle spec/trxd_layout.py; py2c / c2py agreement as spec-level lemmas; z3",
+    text="Full domain on both sides: all field values, all burst contents (array theory, loop invariant for the in-place soft-bit conversion), legacy padding on/off, every datagram length for the C receive path with memory obligations on every buf[...] access.",
+    note="Trusted: VC generators, clang front end, z3; prelude declarations for the newer libosmocore (listed in evidence); read/send contracts; LOGP dropped by the extraction.",
+    design="9/C04"),
+ "C11": dict(
+    engine="cvc",
+    technique="contract-based deductive verification + complete finite table obligations: every mf_*[] / sched_set_for_task[] (firmware) and frame_*[] / layouts[] (trxcon) table extracted from clang's semantic InitListExpr on every run; mframe_schedule_set (loop invariant), l1sched_mframe_layout, the prefix of l1sched_configure_ts and the four frame-lookup sites of sched_trx.c under contract; agreement / burst-id / mask / lookup obligations with FN symbolic over the 51x26x8 cycle; z3",
+    text="Complete (finite) over all tasks, channel combinations, timeslots and frame numbers; representation invariant 'a configured timeslot holds a layout with period > 0' proved from configure_ts and used as the lookup sites' pre-condition.",
+    note="Trusted: clang front end; the task<->channel correspondence table is part of the spec (written from the statement); trxcon single-threaded; l1sched_reset_ts/add_ts contracts assumed; two CBCH enum values from a shim.",
+    design="9/C11"),
+ "C16": dict(
+    technique="contract-based deductive verification, modular: Field protocol with abstract callbacks, Uint/Int family (all classes, lengths 1..8, byte orders, signs, symbolic offset), Buf/Spare, BitField.enc_val/dec_val for every (width, offset), BitFieldSet for enumerated layouts, 64-bit bit-vector lemma for the general packing step, Envelope composition law with abstract members, Sequence with a loop invariant over an item-codec contract; PyVC + z3",
+    text="Each building block is proved against the interface contract for all values; composition (Envelope/Sequence) preserves the contract, so every definition built from the blocks inherits the laws by structural induction (the induction itself is the stated meta-argument). Bounded parts are labelled: BitFieldSet layouts (all of 1 octet; <= 3 fields for 2..4 octets), Envelope member counts 0..4, Sequence.to_bytes item counts 0..3.",
+    note="Trusted: PyVC builtin models (int.from_bytes/to_bytes and their inverse rewrite, bytes.join, slicing); pure callbacks; check() overrides outside the contract.",
+    design="9/C16"),
 }
 NOT_YET = "check not built yet in this session (design in DESIGN.md section 9); will be claimed when its obligations are discharged"
 
